@@ -205,13 +205,33 @@ theorem pyLower_ascii {p : Str} (h : ∀ c ∈ p, c.toNat < 128) : pyLower p = p
     rw [pyLowerChar_ascii (h c (by simp)), ih (fun d hd => h d (by simp [hd]))]
     rfl
 
-/-- **`is_safe_uri` is sound for the browser's reading**, up to the `+ - .` of finding
-    C06-scheme-punct: if the URI is accepted and the browser sees a scheme made of letters and
-    digits only, that scheme is one of the configured safe schemes. -/
-theorem isSafeUri_sound {cfg : Cfg} {v s : Str} (h : isSafeUri cfg v = true)
-    (hb : browserScheme v = some s) (hp : ∀ c ∈ s, c ≠ '+' ∧ c ≠ '-' ∧ c ≠ '.') :
-    s ∈ cfg.safeSchemes := by
-  -- unfold the browser's reading
+/-- what `is_safe_uri` computes once the text before the first colon is known to hold no `#` -/
+theorem isSafeUri_pre {cfg : Cfg} {v pre r : Str} (hsp : split1 ':' v = (pre, some r)) (hhash : '#' ∉ pre) :
+    isSafeUri cfg v = cfg.safeSchemes.contains (pyLower (pre.filter isAlnum)) := by
+  unfold isSafeUri
+  by_cases hh : List.contains v '#' = true
+  · obtain ⟨r', hr'⟩ := split1_colon_of_hash hsp hhash
+    simp only [hh, ↓reduceIte]
+    have hcol : List.contains (split1 '#' v).1 ':' = true := by
+      have : (split1 ':' (split1 '#' v).1).2 ≠ none := by simp [hr']
+      rw [Ne, split1_none_iff] at this
+      simpa using this
+    simp [hcol, hr']
+    intro hn; exact absurd (by simpa using hcol) hn
+  · simp only [hh, Bool.false_eq_true, ↓reduceIte]
+    have hcol : List.contains v ':' = true := by
+      have : (split1 ':' v).2 ≠ none := by simp [hsp]
+      rw [Ne, split1_none_iff] at this
+      simpa using this
+    simp [hcol, hsp]
+    intro hn; exact absurd (by simpa using hcol) hn
+
+/-- the browser's reading, unfolded: a scheme of letters and digits is the text before the first
+    colon with white space and controls removed, and that text holds nothing else -/
+theorem browserScheme_pre {v s : Str} (hb : browserScheme v = some s)
+    (hp : ∀ c ∈ s, c ≠ '+' ∧ c ≠ '-' ∧ c ≠ '.') :
+    ∃ pre r, split1 ':' v = (pre, some r) ∧ pyLower (pre.filter isAlnum) = s ∧
+      ∀ x ∈ pre, isWsCtl x = true ∨ isAsciiAlpha x = true ∨ isAsciiDigit x = true := by
   unfold browserScheme at hb
   simp only at hb
   have hfc : (fun c => !isWsCtl c) ':' = true := by simp [isWsCtl_colon]
@@ -226,7 +246,6 @@ theorem isSafeUri_sound {cfg : Cfg} {v s : Str} (h : isSafeUri cfg v = true)
       by_cases hsch : isScheme (pre.filter fun c => !isWsCtl c) = true
       · simp only [hsch, ↓reduceIte, Option.some.injEq] at hb
         subst hb
-        -- the scheme is plain alphanumeric ASCII
         have hp' : ∀ c ∈ (pre.filter fun c => !isWsCtl c), c ≠ '+' ∧ c ≠ '-' ∧ c ≠ '.' := by
           intro c hc
           have hl : Genshi.Str.lower c ∈ (pre.filter fun c => !isWsCtl c).map Genshi.Str.lower :=
@@ -234,34 +253,6 @@ theorem isSafeUri_sound {cfg : Cfg} {v s : Str} (h : isSafeUri cfg v = true)
           have := hp _ hl
           refine ⟨?_, ?_, ?_⟩ <;> (intro he; subst he; simp [Genshi.Str.lower] at this)
         have hal := alnum_of_plain_scheme hsch hp'
-        -- no '#' before the first colon
-        have hhash : '#' ∉ pre := by
-          intro hm
-          have : '#' ∈ (pre.filter fun c => !isWsCtl c) := by
-            simp [List.mem_filter, hm, isWsCtl_hash]
-          have := (hal _ this).1
-          revert this; decide
-        -- the model's pre-colon text is `pre`
-        have hmodel : isSafeUri cfg v = cfg.safeSchemes.contains (pyLower (pre.filter isAlnum)) := by
-          unfold isSafeUri
-          by_cases hh : List.contains v '#' = true
-          · obtain ⟨r', hr'⟩ := split1_colon_of_hash hsp hhash
-            simp only [hh, ↓reduceIte]
-            have hcol : List.contains (split1 '#' v).1 ':' = true := by
-              have : (split1 ':' (split1 '#' v).1).2 ≠ none := by simp [hr']
-              rw [Ne, split1_none_iff] at this
-              simpa using this
-            simp [hcol, hr']
-            intro hn; exact absurd (by simpa using hcol) hn
-          · simp only [hh, Bool.false_eq_true, ↓reduceIte]
-            have hcol : List.contains v ':' = true := by
-              have : (split1 ':' v).2 ≠ none := by simp [hsp]
-              rw [Ne, split1_none_iff] at this
-              simpa using this
-            simp [hcol, hsp]
-            intro hn; exact absurd (by simpa using hcol) hn
-        rw [hmodel] at h
-        -- alphanumeric filtering = removal of white space and controls, here
         have hfilt : pre.filter isAlnum = pre.filter fun c => !isWsCtl c := by
           have h1 : pre.filter isAlnum = (pre.filter fun c => !isWsCtl c).filter isAlnum := by
             rw [List.filter_filter]
@@ -274,8 +265,38 @@ theorem isSafeUri_sound {cfg : Cfg} {v s : Str} (h : isSafeUri cfg v = true)
           apply List.filter_eq_self.mpr
           intro c hc
           exact isAlnum_of_ascii (hal c hc).1
-        rw [hfilt, pyLower_ascii (fun c hc => (hal c hc).2)] at h
-        simpa using h
+        refine ⟨pre, r, rfl, ?_, ?_⟩
+        · rw [hfilt, pyLower_ascii (fun c hc => (hal c hc).2)]
+        · intro x hx
+          cases hw : isWsCtl x with
+          | true => exact Or.inl rfl
+          | false =>
+            right
+            have : x ∈ (pre.filter fun c => !isWsCtl c) := by simp [List.mem_filter, hx, hw]
+            rcases (hal x this).1 with h | h
+            · exact Or.inl h
+            · exact Or.inr h
       · simp [hsch] at hb
+
+/-- a character that is neither white space/control nor an ASCII letter or digit does not occur
+    before the colon of such a URI -/
+theorem not_mem_pre {pre : Str} (hall : ∀ x ∈ pre, isWsCtl x = true ∨ isAsciiAlpha x = true ∨ isAsciiDigit x = true)
+    {x : Char} (h1 : isWsCtl x = false) (h2 : isAsciiAlpha x = false) (h3 : isAsciiDigit x = false) : x ∉ pre := by
+  intro hm
+  rcases hall x hm with h | h | h
+  · rw [h1] at h; cases h
+  · rw [h2] at h; cases h
+  · rw [h3] at h; cases h
+
+/-- **`is_safe_uri` is sound for the browser's reading**, up to the `+ - .` of finding
+    C06-scheme-punct: if the URI is accepted and the browser sees a scheme made of letters and
+    digits only, that scheme is one of the configured safe schemes. -/
+theorem isSafeUri_sound {cfg : Cfg} {v s : Str} (h : isSafeUri cfg v = true)
+    (hb : browserScheme v = some s) (hp : ∀ c ∈ s, c ≠ '+' ∧ c ≠ '-' ∧ c ≠ '.') :
+    s ∈ cfg.safeSchemes := by
+  obtain ⟨pre, r, hsp, hlow, hall⟩ := browserScheme_pre hb hp
+  have hhash : '#' ∉ pre := not_mem_pre hall (by decide) (by decide) (by decide)
+  rw [isSafeUri_pre hsp hhash, hlow] at h
+  simpa using h
 
 end Genshi.San
